@@ -1146,7 +1146,11 @@ def run(ctx):
                 "csv saved again after a reload, summary json, aggregator SearchOutput, database rows (all / minimised), database "
                 "summary, latent samples (csv, aggregator, database), a directory scraped into a database (Aggregator.from_directory + "
                 "Scraper), plus re-saved database fits and real Drawer fits run twice; non-trivial = at least 2 parameters and 2 "
-                "samples and one of {nesting depth >= 2, shared prior, tuple prior, mixed path depth}; distinct = distinct abstract case")
+                "samples and one of {nesting depth >= 2, shared prior, tuple prior, mixed path depth}; distinct = distinct abstract case; "
+                "plus summary statistics: direct quantile(x, q, weights) calls (exactly representable inputs with ties / zero weights / "
+                "equal weights / q in {0, 1, 1/2, 1/1024 grid, outside [0,1]} and arbitrary binary64 inputs, 0-200 samples) and SamplesPDF "
+                "statistics of in-memory sample sets (equal / normalised / zero-heavy / dominant / boundary 0.99 / dyadic weights, up to "
+                "130 (thorough 257) samples); a quant case is non-trivial with >= 3 samples and >= 2 distinct weights")
     ctx.trusted = [
         "Coq 8.16.1 kernel incl. vm_compute; primitive floats (PrimFloat) are kernel primitives",
         "correspondence harness c09.py / impl/c09_impl.py (abstraction of Sample kwargs into KStr/KTup keys, float.hex transport)",
@@ -1154,8 +1158,13 @@ def run(ctx):
         "strip, csv quoting, JSON float text, numpy array storage and sqlite columns are covered by the hypothesis parse (fmt v) = v "
         "of the theorems and by the oracle only (cells compared bit for bit after the code's own float(), and their decimal text "
         "checked by exact rational arithmetic to round to the persisted binary64)",
-        "medians and errors at sigma are numpy quantile arithmetic: no theorem speaks about them; the oracle compares them between "
-        "the persisted and the reloaded samples, C09_best_fit covers the best-fit vector only",
+        "summary statistics: quantile() of pdf.py (argsort, cumsum, normalisation, np.interp incl. its NaN fall-backs), pdf_converged, "
+        "median_pdf, values_at_sigma, errors_at_sigma are modelled once over an abstract number type (Quantile.v) and instantiated with Q "
+        "(theorems) and binary64 (compared bit for bit); outside the model and supplied by the running code per case: the arrangement "
+        "np.argsort gives tied values (SIMD sort, not stable: the check only requires it to BE a sorting permutation, the theorems "
+        "C09_quantile_any_argsort_* hold for every such arrangement), the levels (1 - erf(sigma/sqrt 2))/2 (libm), the configured "
+        "unconverged_sample_size; the sign of a zero chosen by numpy's min/max in the unconverged branch is not compared; weight lists "
+        "whose running sum is 0, infinite or NaN (numpy interpolates over NaN breakpoints) are counted and not compared",
         "modelled not verified: model.json / database round trip of the model itself (C08), set iteration order in Samples.minimise "
         "(either order accepted), sign of a zero stored in an SQLite REAL column (latent samples in the database)",
     ]
@@ -1164,6 +1173,10 @@ def run(ctx):
         "give this for every well-formed model tree; text/float round trip is a hypothesis",
         "C09_tree_csv / C09_tree_summary / C09_tree_db are about the code as it is now (Variant.code_is_fixed = true, "
         "dict_drops_zero = false, table_reads_by_position = true)",
+        "C09_quantile_* / C09_stats_lower_median_upper are over exact rationals: non-negative weights and a positive weight of the "
+        "samples other than the one of largest value (the code's normalisation); binary64 rounding is not covered by them (on inputs "
+        "where every operation is exact the rational model is compared with the running code exactly); C09_stats_survive_* hold for "
+        "every arithmetic",
         "C09_tree_csv / C09_roundtrip_csv are about the reader since b5615dc (Variant.table_reads_by_position = true): no guard on "
         "parameter names; names of different priors must differ only for models whose unique paths are all single names "
         "(automatic without tuple priors); *_legacy_* theorems document the code before the repairs",
@@ -1293,10 +1306,20 @@ MANIFEST = {
             "regression obligations); named json rows of a database fit: the last save wins for every save history; value per path is independent of the prior numbering of a re-created model; hence the same "
             "best-fit vector; plus vm_compute correspondence of keys / lookups / exceptions with the running code on generated model "
             "shapes x extreme floats (Python and numpy) over csv, re-saved csv, aggregator, summary, database, scrape and latent "
-            "routes and a direct property oracle incl. real fits run twice",
+            "routes and a direct property oracle incl. real fits run twice; summary statistics: an executable model of quantile() "
+            "(corner.py weighted quantile: argsort, cumulative weights without the largest sample, np.interp) and of median_pdf / "
+            "values_at_sigma / errors_at_sigma, with theorems over exact rationals (result between two adjacent sorted sample values, "
+            "monotone in the level, lower <= median <= upper, order-independent for distinct values; order dependence on ties, influence "
+            "of zero-weight samples and the missing half-weight property kept as *_refuted statements), the corollaries "
+            "C09_stats_survive_csv / _db (statistics of the reloaded samples = statistics of the samples in memory, any arithmetic), "
+            "bit-for-bit binary64 and exact-rational correspondence of quantile and of the statistics of in-memory and reloaded samples",
     "note": "Trusted: Coq kernel + vm_compute, the correspondence harness; the text layer (decimal text of floats, padding, JSON, "
-            "numpy, sqlite) is a hypothesis of the theorems and is checked by the oracle only, bit for bit; medians and error "
-            "estimates are compared by the oracle only (no theorem); model.json/database round trip of the model itself is C08. "
+            "numpy, sqlite) is a hypothesis of the theorems and is checked by the oracle only, bit for bit; the quantile theorems "
+            "are over Q (binary64 rounding only by correspondence); np.argsort's tie order, the erf levels and numpy min/max zero signs "
+            "are inputs taken from the running code; no theorem gives a weight-on-each-side guarantee for the median (refuted for this "
+            "algorithm); covariance_matrix, SamplesMCMC / SamplesNest specifics (log_evidence is read from samples_info: oracle only) "
+            "and instance construction from the median vector (C10/C12 territory) are not modelled; model.json/database round trip "
+            "of the model itself is C08. "
             "Known finding: positional error vectors of the summary read against a re-created model.",
     "technique": "machine-checked proof in Coq (hand-written executable model) + vm_compute correspondence + property oracle",
 }
